@@ -2,6 +2,7 @@ package python
 
 import (
 	"fmt"
+	"reflect"
 	"sort"
 	"strings"
 	"unicode"
@@ -263,7 +264,7 @@ func defaultValueForTypeRec(schemas ast.Schemas, typeDef ast.Type, importModule 
 		if found && referredObj.Type.IsEnum() {
 			enumName := formatEnumMemberName(referredObj.Type.AsEnum().Values[0].Name)
 			for _, enumValue := range referredObj.Type.AsEnum().Values {
-				if enumValue.Value == typeDef.Default {
+				if reflect.DeepEqual(enumValue.Value, typeDef.Default) {
 					enumName = formatEnumMemberName(enumValue.Name)
 					break
 				}
